@@ -18,7 +18,7 @@ from vk import probe
 from vk import tree as vtree
 
 LEVEL = 'exploration'
-RULE = ('histories over a pool of 13 trees (elisions, nested scopes, comments, two source paths, one scope of 420 names) and 15 printer objects '
+RULE = ('histories over a pool of 15 trees (elisions, nested scopes, comments, two source paths, one scope of 420 names) and 15 printer objects '
         '(pretty x 3 indents, minify x drop_semi, obfuscating x {globals, shadow}, obfuscate+indent composition, '
         'extractor x fold_ops): every history of length <= 2 (thorough: 3) over a reduced alphabet, and random '
         'histories of 50-200 operations favouring abandon / raise immediately before a full call on the same printer, '
@@ -29,7 +29,7 @@ RULE = ('histories over a pool of 13 trees (elisions, nested scopes, comments, t
 ASSUMPTIONS = ['behaviour of a generator after it raised, and identity (as opposed to equality) of fragments, are not demanded']
 BUDGET_S = {'quick': 120, 'thorough': 600}
 REQUIRED_HITS = ['full', 'abandon', 'raise', 'shortcut', 'str', 'fingerprints_compared', 'Indentator()', 'Obfuscator()',
-                 'shortcut_history_step', 'interleave']
+                 'shortcut_history_step', 'interleave', 'fresh_result_retaken']
 FLOOR = {'quick': 200, 'thorough': 2000}
 
 TEXTS = [
@@ -47,6 +47,11 @@ TEXTS = [
     'a = b ? c : d, e = f || g && h; i++; --j; delete k.l; m = [, ]; n = {};',
     # a scope with several hundred names: generated names get two letters and pass 'do', 'if', 'in'
     'function many(p0, p1) { var %s; return v0 + v419 + p0 + p1 + free; }' % ', '.join('v%d' % i for i in range(420)),
+    # scopes of every kind nested in one another, with free one-letter names (what one call leaves behind about
+    # them is what the next call's name generator would step around) ...
+    'try { g(); } catch (err) { handler = function (x) { return a + b + c + d + x + err; }; label: for (;;) break label; }',
+    # ... and a tree that would notice: few names, a catch clause, a named function expression, an accessor
+    'function f(p) { try { g(p); } catch (e) { h(e); } var o = {get q() { var r = p; return r; }}; return function n(s) { return n(s) + o; }; }',
 ]
 
 
@@ -512,6 +517,18 @@ def run(ctx):
             if ctx.out_of_time():
                 break
         ctx.extra['operation_pairs_seen__set'] = sorted('%s->%s' % p for p in pairs)
+        # the reference results themselves were taken at different moments of this process' history (each at its
+        # first use, from a fresh printer on a fresh tree): taken again now, after everything above, they are the same
+        for (pi, ti), first in sorted(world.golden.items()):
+            del world.golden[(pi, ti)]
+            again = world.gold(pi, ti)
+            world.golden[(pi, ti)] = first
+            ctx.hit('fresh_result_retaken')
+            if again != first:
+                ctx.violation('C14:fresh_printer_result_depends_on_history', {'history': [['full', pi, ti]]},
+                              'a fresh %s printer on a fresh tree %d (%r) gives a different result at the end of the run '
+                              'than at its first use: what earlier calls of *other* printer objects left behind' % (
+                                  world.pdefs[pi][0], ti, world.texts[ti][:60]))
         # histories of shortcut calls on source texts (valid and not)
         import random
         for h in range(ctx.per_shard(25, 400)):
